@@ -685,3 +685,9 @@ mod tests {
         assert!(!data.contains("transfer-encoding: chunked\r\n"));
     }
 }
+
+#[cfg(kani)]
+mod __verif {
+    use super::*;
+    include!(concat!(env!("ACTIX_VERIF_DIR"), "/hooks/actix_http__h1_encoder.rs"));
+}
